@@ -859,6 +859,27 @@ def exec_requests(seed, n, depth=3):
             body += " return (function(n){ return n + this.p + arguments.length; }).call(o, a + b);"
         elif k == 2:
             body += " var acc = ''; for (const q of [a, b, c]) { acc += q + s.trim(); } return acc;"
+        if gr.chance(1, 3):
+            # operand-order stress: an identifier next to something that can run code and rebind it
+            ids = ["a", "b", "x", "y", "s"]
+            stress = []
+            for _ in range(2 + gr.below(4)):
+                l = gr.choice(ids)
+                e = gr.choice(["-%s", "+%s", "~%s", "!%s", "typeof %s", "`t${%s()}`", "`t${''}${%s()}`", "%s()", "(%s(), 1)", "%s.p", "-%s.p",
+                               "%s[k]", "(%s)", "[%s]", "void %s()", "%s++", "%s?.p", "new %s()", "%s.trim()", "`${%s}`"]) % gr.choice(ids)
+                form = gr.below(5)
+                if form == 0:
+                    stress.append("r = %s + %s;" % (l, e))
+                elif form == 1:
+                    stress.append("r = %s + %s;" % (e, l))
+                elif form == 2:
+                    stress.append("%s += %s;" % (l, e))
+                elif form == 3:
+                    stress.append("r = `${%s}-${%s}`;" % (l, e))
+                else:
+                    stress.append("r = %s.concat(%s, %s);" % (l, e, gr.choice(ids)))
+            body = "var r; " + " ".join(stress) + " return r;"
+            g.tags.add('operand-order-stress')
         src = "function main(p0, p1, p2){ " + body + " }"
         if gr.chance(1, 8):
             src = "'use strict'; " + src
